@@ -5,7 +5,7 @@ CONSTANTS
   HsKinds = {"valid", "garbage", "replayC", "replayS"}
   TgtKinds = {"ok", "refuse", "deny"}
   MaxC = 2
-  MaxT = 2
+  MaxT = 1
   MaxTok = 6
   AllowBad = TRUE
   AllowSplit = FALSE
